@@ -1,9 +1,1180 @@
-// C10: not built yet (stub so that main.rs is already wired; replace the body, keep the two signatures).
-use crate::util::Sink;
+// C10: event assembly. Real banks (valid CRCs/baselines) are built from the documented layouts,
+// the REAL MainEvent::try_from_banks runs on them, and the case line carries, after `|`, the decoded
+// view of every bank obtained through the detector crate's public API plus the map / calibration /
+// reassembly oracles, which is what the Coq model (coq/Event/Event.v) consumes.
+//   evt10 <run> <namehex>:<datahex>* | <view>     observation: outcome, occupied slots, timestamp
+// Shared with c09.rs and c11.rs (builders, view, observation).
+use crate::util::*;
+use alpha_g_detector::alpha16::aw_map::TpcWirePosition;
+use alpha_g_detector::alpha16::{self, Adc16ChannelId, Adc32ChannelId, AdcPacket};
+use alpha_g_detector::midas::{Alpha16BankName, MainEventBankName};
+use alpha_g_detector::padwing::map::TpcPadPosition;
+use alpha_g_detector::padwing::{self, AfterId, Chunk, FpnChannelId, PadChannelId, PwbPacket, ResetChannelId};
+use alpha_g_detector::trigger::TrgPacket;
+use alpha_g_physics::MainEvent;
+use std::collections::BTreeSet;
 
-pub fn run(_tier: &str, _seed: u64, _s: &mut Sink) {}
+// ---------------------------------------------------------------------------------------------
+// boards known to the detector crate (discovered through its public API)
+// ---------------------------------------------------------------------------------------------
+#[derive(Clone)]
+pub struct A16Board {
+    pub name: String,
+    pub mac: [u8; 6],
+}
+#[derive(Clone)]
+pub struct PwbBoard {
+    pub name: String,
+    pub mac: [u8; 6],
+    pub dev: u32,
+}
+pub struct World {
+    pub a16: Vec<A16Board>,
+    pub pwb: Vec<PwbBoard>,
+}
+pub fn world() -> World {
+    let mut a16 = Vec::new();
+    let mut pwb = Vec::new();
+    for i in 0..100u32 {
+        let n = format!("{:02}", i);
+        if let Ok(b) = alpha16::BoardId::try_from(&n[..]) {
+            a16.push(A16Board { name: n.clone(), mac: b.mac_address() });
+        }
+        if let Ok(b) = padwing::BoardId::try_from(&n[..]) {
+            pwb.push(PwbBoard { name: n.clone(), mac: b.mac_address(), dev: b.device_id() });
+        }
+    }
+    World { a16, pwb }
+}
 
-/// implementation observation for a case line of this module (None: not one of mine)
-pub fn observe_line(_line: &str) -> Option<String> {
-    None
+// ---------------------------------------------------------------------------------------------
+// packet builders (documented layouts)
+// ---------------------------------------------------------------------------------------------
+#[derive(Clone, Debug)]
+pub struct Bank {
+    pub name: String,
+    pub data: Vec<u8>,
+}
+
+/// floor of the mean of the first 64 samples (the suppression baseline the decoder recomputes)
+pub fn adc_baseline(samples: &[i16]) -> i16 {
+    let sum: i32 = samples.iter().take(64).map(|&x| x as i32).sum();
+    sum.div_euclid(64) as i16
+}
+
+/// ADC v3 long packet. `supp = Some(keep_last)`: suppression enabled, keep bit set.
+pub fn adc_long(mac: [u8; 6], chan_byte: u8, samples: &[i16], supp: Option<u16>, req: Option<u16>) -> Vec<u8> {
+    let req = req.unwrap_or((samples.len() + 2) as u16);
+    let mut b = vec![1u8, 3, 0, 4, 5, chan_byte];
+    b.extend_from_slice(&req.to_be_bytes());
+    b.extend_from_slice(&[0, 0, 0, 7, 0, 0]);
+    b.extend_from_slice(&mac);
+    b.extend_from_slice(&[0; 12]);
+    for s in samples {
+        b.extend_from_slice(&s.to_be_bytes());
+    }
+    let footer: u16 = match supp {
+        Some(kl) => (kl & 0xFFF) | (1 << 12) | (1 << 13),
+        None => 0,
+    };
+    b.extend_from_slice(&footer.to_be_bytes());
+    b.extend_from_slice(&adc_baseline(samples).to_be_bytes());
+    b
+}
+/// ADC v3 16-byte packet of a suppressed channel (no MAC, no waveform).
+pub fn adc_short(chan_byte: u8, req: u16, baseline: i16) -> Vec<u8> {
+    let mut b = vec![1u8, 3, 0, 4, 5, chan_byte];
+    b.extend_from_slice(&req.to_be_bytes());
+    b.extend_from_slice(&[0, 0, 0, 7]);
+    b.extend_from_slice(&[0x20, 0]);
+    b.extend_from_slice(&baseline.to_be_bytes());
+    b
+}
+pub fn trg(ts: u32, out: u32, inp: u32, drift: u32, sd: u32) -> Vec<u8> {
+    let w: [u32; 20] = [
+        255,
+        0x8000_0000 | (out & 0x0FFF_FFFF),
+        ts,
+        out,
+        inp,
+        0,
+        5,
+        6,
+        7,
+        0x8000_0008,
+        drift,
+        sd,
+        0,
+        (10 << 16) | 9,
+        11,
+        0,
+        12,
+        13,
+        14,
+        0xE000_0000 | (out & 0x0FFF_FFFF),
+    ];
+    w.iter().flat_map(|x| x.to_le_bytes()).collect()
+}
+pub fn chunk(device_id: u32, after: u8, flags: u8, id: u16, payload: &[u8]) -> Vec<u8> {
+    let mut b = Vec::new();
+    b.extend_from_slice(&device_id.to_le_bytes());
+    b.extend_from_slice(&1u32.to_le_bytes());
+    b.extend_from_slice(&1u16.to_le_bytes());
+    b.push(after);
+    b.push(flags);
+    b.extend_from_slice(&id.to_le_bytes());
+    b.extend_from_slice(&(payload.len() as u16).to_le_bytes());
+    let c = !crc32c::crc32c(&b[..16]);
+    b.extend_from_slice(&c.to_le_bytes());
+    b.extend_from_slice(payload);
+    while b.len() % 4 != 0 {
+        b.push(0);
+    }
+    let c = !crc32c::crc32c(&b[20..]);
+    b.extend_from_slice(&c.to_le_bytes());
+    b
+}
+/// PWB v2 payload; `chans` = (readout index 1..=79, samples of length nsamp), ascending readout index.
+pub fn pwb_payload(mac: [u8; 6], chip_letter: u8, nsamp: u16, chans: &[(u16, Vec<i16>)]) -> Vec<u8> {
+    let mut b = vec![2u8, chip_letter, 0, 0];
+    b.extend_from_slice(&mac);
+    b.extend_from_slice(&[0, 0]);
+    b.extend_from_slice(&[1, 0, 0, 0, 0, 0, 0, 0]);
+    b.extend_from_slice(&[0, 0]);
+    b.extend_from_slice(&nsamp.to_le_bytes());
+    let mut mask: u128 = 0;
+    for (c, _) in chans {
+        mask |= 1u128 << (c - 1);
+    }
+    b.extend_from_slice(&mask.to_le_bytes()[..10]);
+    b.extend_from_slice(&mask.to_le_bytes()[..10]);
+    b.extend_from_slice(&[0; 8]);
+    for (c, w) in chans {
+        b.extend_from_slice(&c.to_le_bytes());
+        b.extend_from_slice(&nsamp.to_le_bytes());
+        for s in w {
+            b.extend_from_slice(&s.to_le_bytes());
+        }
+        if nsamp % 2 == 1 {
+            b.extend_from_slice(&[0, 0]);
+        }
+    }
+    b.extend_from_slice(&[0xCC; 4]);
+    b
+}
+/// split a payload into `n` chunks (all but the last of equal length), ids 0.., last one flagged
+pub fn split_chunks(dev: u32, after: u8, payload: &[u8], n: usize) -> Vec<Vec<u8>> {
+    let n = n.max(1).min(payload.len().max(1));
+    let per = (payload.len() + n - 1) / n;
+    let per = per.max(1);
+    let parts: Vec<&[u8]> = payload.chunks(per).collect();
+    let k = parts.len();
+    parts
+        .iter()
+        .enumerate()
+        .map(|(i, p)| chunk(dev, after, (i + 1 == k) as u8, i as u16, p))
+        .collect()
+}
+pub fn wire_name(board: &str, chan: u8) -> String {
+    let d = std::char::from_digit(chan as u32, 32).unwrap().to_ascii_uppercase();
+    format!("C{}{}", board, d)
+}
+
+// ---------------------------------------------------------------------------------------------
+// identifiers as numbers (the private integer inside the id types is recovered through PartialEq)
+// ---------------------------------------------------------------------------------------------
+fn a32_num(c: Adc32ChannelId) -> u8 {
+    (0..32u8).find(|&i| Adc32ChannelId::try_from(i).unwrap() == c).unwrap()
+}
+fn a16_num(c: Adc16ChannelId) -> u8 {
+    (0..16u8).find(|&i| Adc16ChannelId::try_from(i).unwrap() == c).unwrap()
+}
+fn after_num(a: AfterId) -> u8 {
+    match a {
+        AfterId::A => 0,
+        AfterId::B => 1,
+        AfterId::C => 2,
+        AfterId::D => 3,
+    }
+}
+fn pad_num(c: PadChannelId) -> u16 {
+    (1..=72u16).find(|&i| PadChannelId::try_from(i).unwrap() == c).unwrap()
+}
+fn fpn_num(c: FpnChannelId) -> u16 {
+    (1..=4u16).find(|&i| FpnChannelId::try_from(i).unwrap() == c).unwrap()
+}
+fn reset_num(c: ResetChannelId) -> u16 {
+    (1..=3u16).find(|&i| ResetChannelId::try_from(i).unwrap() == c).unwrap()
+}
+fn join_i16(w: &[i16]) -> String {
+    if w.is_empty() {
+        "-".to_string()
+    } else {
+        w.iter().map(|x| x.to_string()).collect::<Vec<_>>().join(",")
+    }
+}
+fn cal_str(r: Result<(i16, f64, usize), String>) -> String {
+    match r {
+        Ok((bl, g, dl)) => format!("{}:{:016x}:{}", bl, g.to_bits(), dl),
+        Err(_) => "E".to_string(),
+    }
+}
+
+// ---------------------------------------------------------------------------------------------
+// decoded view of a bank list (what the model consumes)
+// ---------------------------------------------------------------------------------------------
+pub fn view(run: u32, banks: &[Bank]) -> String {
+    let mut toks: Vec<String> = Vec::new();
+    let mut oracles: BTreeSet<String> = BTreeSet::new();
+    // groups in first-appearance order: (key, [(uid, chunk)])
+    let mut groups: Vec<((String, u8), Vec<(usize, Chunk)>)> = Vec::new();
+    for (uid, b) in banks.iter().enumerate() {
+        match MainEventBankName::try_from(&b.name[..]) {
+            Err(_) => toks.push("U".into()),
+            Ok(MainEventBankName::Alpha16(Alpha16BankName::A32(bn))) => {
+                let nb = bn.board_id().name().to_string();
+                let nc = a32_num(bn.channel_id());
+                match AdcPacket::try_from(&b.data[..]) {
+                    Err(_) => toks.push(format!("W:{}:{}:E", nb, nc)),
+                    Ok(p) => {
+                        let board = p.board_id().map(|x| x.name().to_string()).unwrap_or("-".into());
+                        let ch = match p.channel_id() {
+                            alpha16::ChannelId::A32(c) => format!("A{}", a32_num(c)),
+                            alpha16::ChannelId::A16(c) => format!("B{}", a16_num(c)),
+                        };
+                        toks.push(format!("W:{}:{}:{}:{}:{}", nb, nc, board, ch, join_i16(p.waveform())));
+                        if let alpha16::ChannelId::A32(c) = p.channel_id() {
+                            let fb = p.board_id().unwrap_or(bn.board_id());
+                            match TpcWirePosition::try_new(run, fb, c) {
+                                Err(_) => {
+                                    oracles.insert(format!("wp:{}:{}:E", fb.name(), a32_num(c)));
+                                }
+                                Ok(w) => {
+                                    let wi = usize::from(w);
+                                    oracles.insert(format!("wp:{}:{}:{}", fb.name(), a32_num(c), wi));
+                                    oracles.insert(format!(
+                                        "wc:{}:{}",
+                                        wi,
+                                        cal_str(alpha_g_physics::verif::wire_calibration(run, wi))
+                                    ));
+                                }
+                            }
+                        }
+                    }
+                }
+            }
+            Ok(MainEventBankName::Padwing(bn)) => {
+                let nb = bn.board_id().name().to_string();
+                match Chunk::try_from(&b.data[..]) {
+                    Err(_) => toks.push(format!("P:{}:E", nb)),
+                    Ok(c) => {
+                        let key = (c.board_id().name().to_string(), after_num(c.after_id()));
+                        toks.push(format!("P:{}:{}:{}:{}", nb, key.0, key.1, uid));
+                        match groups.iter_mut().find(|g| g.0 == key) {
+                            Some(g) => g.1.push((uid, c)),
+                            None => groups.push((key, vec![(uid, c)])),
+                        }
+                    }
+                }
+            }
+            Ok(MainEventBankName::Trg(_)) => match TrgPacket::try_from(&b.data[..]) {
+                Err(_) => toks.push("T:E".into()),
+                Ok(p) => toks.push(format!("T:{}", p.timestamp())),
+            },
+            Ok(_) => toks.push("O".into()),
+        }
+    }
+    for (_, g) in &groups {
+        let uids = g.iter().map(|x| x.0.to_string()).collect::<Vec<_>>().join(",");
+        let chunks: Vec<Chunk> = g.iter().map(|x| x.1.clone()).collect();
+        match PwbPacket::try_from(chunks) {
+            Err(_) => {
+                oracles.insert(format!("g:{}:E", uids));
+            }
+            Ok(p) => {
+                let board = p.board_id();
+                let chip = p.after_id();
+                let mut sent = Vec::new();
+                for &ch in p.channels_sent() {
+                    let w = p.waveform_at(ch).unwrap();
+                    let id = match ch {
+                        padwing::ChannelId::Pad(c) => format!("P{}", pad_num(c)),
+                        padwing::ChannelId::Fpn(c) => format!("F{}", fpn_num(c)),
+                        padwing::ChannelId::Reset(c) => format!("R{}", reset_num(c)),
+                    };
+                    sent.push(format!("{}={}", id, join_i16(w)));
+                    if let padwing::ChannelId::Pad(pc) = ch {
+                        let pre = format!("pp:{}:{}:{}", board.name(), after_num(chip), pad_num(pc));
+                        match TpcPadPosition::try_new(run, board, chip, pc) {
+                            Err(_) => {
+                                oracles.insert(format!("{}:E", pre));
+                            }
+                            Ok(pos) => {
+                                let (c, r) = (usize::from(pos.column), usize::from(pos.row));
+                                oracles.insert(format!("{}:{}:{}", pre, c, r));
+                                oracles.insert(format!(
+                                    "pc:{}:{}:{}",
+                                    c,
+                                    r,
+                                    cal_str(alpha_g_physics::verif::pad_calibration(run, c, r))
+                                ));
+                            }
+                        }
+                    }
+                }
+                let sent = if sent.is_empty() { "-".to_string() } else { sent.join("/") };
+                oracles.insert(format!("g:{}:{}:{}:{}", uids, board.name(), after_num(chip), sent));
+            }
+        }
+    }
+    toks.extend(oracles);
+    toks.join(" ")
+}
+
+// ---------------------------------------------------------------------------------------------
+// implementation observation
+// ---------------------------------------------------------------------------------------------
+pub fn fnv(sig: &[f64]) -> u64 {
+    let mut h: u64 = 0xcbf29ce484222325;
+    for f in sig {
+        for b in f.to_bits().to_le_bytes() {
+            h = (h ^ b as u64).wrapping_mul(0x100000001b3);
+        }
+    }
+    h
+}
+fn sig_str(sig: &[f64]) -> String {
+    format!(
+        "{}:{:016x}:{}",
+        sig.len(),
+        fnv(sig),
+        sig.iter().take(4).map(|f| format!("{:016x}", f.to_bits())).collect::<Vec<_>>().join(",")
+    )
+}
+pub fn event_obs(ev: &MainEvent) -> String {
+    let (wires, pads) = ev.verif_signals();
+    let mut out = vec![format!("ok {}", ev.timestamp())];
+    for (i, w) in wires.iter().enumerate() {
+        if let Some(s) = w {
+            out.push(format!("w{}={}", i, sig_str(s)));
+        }
+    }
+    for (c, col) in pads.iter().enumerate() {
+        for (r, p) in col.iter().enumerate() {
+            if let Some(s) = p {
+                out.push(format!("p{}.{}={}", c, r, sig_str(s)));
+            }
+        }
+    }
+    out.join(" ")
+}
+pub fn build_real(run: u32, banks: &[Bank]) -> Option<Result<MainEvent, ()>> {
+    let b: Vec<Bank> = banks.to_vec();
+    catch(move || {
+        MainEvent::try_from_banks(run, b.iter().map(|x| (&x.name[..], &x.data[..]))).map_err(|_| ())
+    })
+}
+pub fn observe(run: u32, banks: &[Bank]) -> String {
+    match build_real(run, banks) {
+        None => "panic".into(),
+        Some(Err(_)) => "err".into(),
+        Some(Ok(ev)) => event_obs(&ev),
+    }
+}
+
+// ---------------------------------------------------------------------------------------------
+// case lines
+// ---------------------------------------------------------------------------------------------
+pub fn raw_str(run: u32, banks: &[Bank]) -> String {
+    let mut s = run.to_string();
+    for b in banks {
+        s.push(' ');
+        s.push_str(&hex(b.name.as_bytes()));
+        s.push(':');
+        s.push_str(&hex(&b.data));
+    }
+    s
+}
+pub fn case_line(tag: &str, run: u32, banks: &[Bank]) -> String {
+    let v = catch({
+        let b = banks.to_vec();
+        move || view(run, &b)
+    })
+    .unwrap_or_else(|| "VIEW-PANIC".to_string());
+    format!("{} {} | {}", tag, raw_str(run, banks), v)
+}
+/// parse `<run> <namehex>:<datahex>* [| ...]`
+pub fn parse_raw(toks: &[&str]) -> Option<(u32, Vec<Bank>)> {
+    let run = toks.first()?.parse::<u32>().ok()?;
+    let mut banks = Vec::new();
+    for t in &toks[1..] {
+        if *t == "|" {
+            break;
+        }
+        let (n, d) = t.split_once(':')?;
+        banks.push(Bank { name: String::from_utf8(unhex(n)).ok()?, data: unhex(d) });
+    }
+    Some((run, banks))
+}
+
+pub fn observe_line(line: &str) -> Option<String> {
+    let toks: Vec<&str> = line.split(' ').collect();
+    if toks.first() != Some(&"evt10") {
+        return None;
+    }
+    let (run, banks) = parse_raw(&toks[1..])?;
+    Some(observe(run, &banks))
+}
+
+// ---------------------------------------------------------------------------------------------
+// generators
+// ---------------------------------------------------------------------------------------------
+pub const RUNS_MAIN: [u32; 9] = [u32::MAX, 4418, 7026, 9277, 10418, 11084, 11186, 11192, 12000];
+/// every literal of the `match run_number` arms in aw_map.rs, padwing/map.rs, calibration/** with +-1
+pub const RUNS_EDGE: [u32; 29] = [
+    0, 1, 2723, 2724, 2725, 2940, 2941, 2942, 4417, 4419, 6999, 7000, 7001, 7025, 7027, 9276, 9278, 10417, 10419,
+    11083, 11085, 11185, 11187, 11191, 11193, 5000, 20000, u32::MAX - 1, u32::MAX - 2,
+];
+pub fn pick_run(r: &mut Rng) -> u32 {
+    match r.below(10) {
+        0..=3 => u32::MAX,
+        4..=6 => r.pick(&[9277u32, 10418, 11084, 11186, 11192, 12000, 9278, 10417, 10419, 11083, 11085, 11187, 11193]),
+        7 => r.pick(&RUNS_MAIN),
+        _ => r.pick(&RUNS_EDGE),
+    }
+}
+/// waveform lengths around the guards: 64 baseline samples, delays 100 / 115 / 129
+pub const WIRE_LENS: [usize; 14] = [64, 65, 66, 99, 100, 101, 102, 128, 129, 130, 131, 140, 200, 509];
+pub const PAD_LENS: [u16; 16] = [0, 1, 2, 50, 99, 100, 101, 102, 114, 115, 116, 117, 130, 255, 510, 511];
+
+pub fn samples(r: &mut Rng, n: usize, lo: i16, hi: i16) -> Vec<i16> {
+    let style = r.below(6);
+    let base = r.range(0, (hi as i64 - lo as i64) as u64) as i64 + lo as i64;
+    (0..n)
+        .map(|i| {
+            let v: i64 = match style {
+                0 => base,
+                1 => base + (r.below(21) as i64 - 10),
+                2 => r.pick(&[lo as i64, hi as i64, 0, -1, 1, lo as i64 + 1, hi as i64 - 1]),
+                3 => {
+                    if i >= 64 && r.chance(1, 8) {
+                        r.pick(&[lo as i64, hi as i64])
+                    } else {
+                        base
+                    }
+                }
+                _ => r.range(0, (hi as i64 - lo as i64) as u64) as i64 + lo as i64,
+            };
+            v.clamp(lo as i64, hi as i64) as i16
+        })
+        .collect()
+}
+
+/// description of one generated bank, kept beside the bytes so that perturbations know what it is
+#[derive(Clone, Debug)]
+pub enum Kind {
+    Wire { board: usize, chan: u8, short: bool },
+    Pad { board: usize, chip: u8 },
+    Trg,
+    Other,
+}
+#[derive(Clone)]
+pub struct Ev {
+    pub run: u32,
+    pub banks: Vec<Bank>,
+    pub kinds: Vec<Kind>,
+}
+
+pub fn wire_bank(w: &World, r: &mut Rng, board: usize, chan: u8, run: u32) -> Bank {
+    let _ = run;
+    let n = r.pick(&WIRE_LENS);
+    let s = samples(r, n, i16::MIN, i16::MAX);
+    // suppression enabled: keep_last with last_index = (kl-1)*2-2 <= n-1
+    let max_kl = ((n + 1) / 2 + 1) as u64;
+    let supp = if r.chance(1, 4) && max_kl >= 34 { Some(r.range(34, max_kl) as u16) } else { None };
+    Bank { name: wire_name(&w.a16[board].name, chan), data: adc_long(w.a16[board].mac, 128 + chan, &s, supp, None) }
+}
+pub fn short_bank(w: &World, r: &mut Rng, board: usize, chan: u8) -> Bank {
+    Bank {
+        name: wire_name(&w.a16[board].name, chan),
+        data: adc_short(128 + chan, r.pick(&[0u16, 1, 2, 66, 511, 699, 65535]), r.next() as i16),
+    }
+}
+/// one PWB packet of (board, chip) with the given readout channels, split into `nchunks` banks
+pub fn pad_banks(w: &World, r: &mut Rng, board: usize, chip: u8, chans: &[u16], nsamp: u16, nchunks: usize) -> Vec<Bank> {
+    let mut cs: Vec<u16> = chans.to_vec();
+    cs.sort();
+    cs.dedup();
+    let data: Vec<(u16, Vec<i16>)> =
+        cs.iter().map(|&c| (c, samples(r, nsamp as usize, i16::MIN, i16::MAX))).collect();
+    let payload = pwb_payload(w.pwb[board].mac, b'A' + chip, nsamp, &data);
+    split_chunks(w.pwb[board].dev, chip, &payload, nchunks)
+        .into_iter()
+        .map(|d| Bank { name: format!("PC{}", w.pwb[board].name), data: d })
+        .collect()
+}
+pub fn trg_bank(r: &mut Rng) -> Bank {
+    let ts = r.boundary(u32::MAX as u64) as u32;
+    let out = r.below(1000) as u32;
+    Bank { name: "ATAT".into(), data: trg(ts, out, out + 5, out + 3, out + 1) }
+}
+pub fn other_bank(w: &World, r: &mut Rng) -> Bank {
+    match r.below(3) {
+        0 => Bank { name: format!("B{}{:X}", w.a16[r.below(w.a16.len() as u64) as usize].name, r.below(16)), data: { let n = r.below(40) as usize; r.bytes(n) } },
+        1 => Bank { name: "TRBA".into(), data: { let n = r.below(40) as usize; r.bytes(n) } },
+        _ => Bank { name: "MCVX".into(), data: r.bytes(24) },
+    }
+}
+fn shuffle<T>(r: &mut Rng, a: &mut [T], b: &mut [impl Sized]) {
+    for i in (1..a.len()).rev() {
+        let j = r.below(i as u64 + 1) as usize;
+        a.swap(i, j);
+        b.swap(i, j);
+    }
+}
+pub fn rand_chans(r: &mut Rng) -> Vec<u16> {
+    let k = match r.below(6) {
+        0 => 0,
+        1 => 1,
+        2 => 79,
+        _ => r.range(1, 8),
+    };
+    if k == 79 {
+        return (1..=79).collect();
+    }
+    let mut v: Vec<u16> = (0..k).map(|_| r.pick(&[1u16, 2, 3, 4, 15, 16, 17, 28, 29, 30, 53, 54, 55, 66, 67, 68, 78, 79, 40, 41])).collect();
+    if r.chance(1, 2) {
+        v = (0..k).map(|_| r.range(1, 79) as u16).collect();
+    }
+    v
+}
+
+/// a consistent event: distinct wire names, distinct (board, chip) groups, one TRG, some ignored banks
+pub fn base_event(w: &World, r: &mut Rng, run: u32, big: bool) -> Ev {
+    let mut banks = Vec::new();
+    let mut kinds = Vec::new();
+    let nw = if big { r.range(3, 12) } else { r.below(4) };
+    let mut names: Vec<(usize, u8)> = Vec::new();
+    for _ in 0..nw {
+        let b = r.below(w.a16.len() as u64) as usize;
+        let c = r.below(32) as u8;
+        if names.contains(&(b, c)) {
+            continue;
+        }
+        names.push((b, c));
+        let short = r.chance(1, 5);
+        banks.push(if short { short_bank(w, r, b, c) } else { wire_bank(w, r, b, c, run) });
+        kinds.push(Kind::Wire { board: b, chan: c, short });
+    }
+    let ng = if big { r.range(1, 4) } else { r.below(3) };
+    let mut keys: Vec<(usize, u8)> = Vec::new();
+    for _ in 0..ng {
+        let b = r.below(w.pwb.len() as u64) as usize;
+        let chip = r.below(4) as u8;
+        if keys.contains(&(b, chip)) {
+            continue;
+        }
+        keys.push((b, chip));
+        let chans = rand_chans(r);
+        let nsamp = if chans.len() > 20 { r.pick(&[0u16, 1, 101, 116]) } else { r.pick(&PAD_LENS) };
+        let nch = r.range(1, 3) as usize;
+        for bk in pad_banks(w, r, b, chip, &chans, nsamp, nch) {
+            banks.push(bk);
+            kinds.push(Kind::Pad { board: b, chip });
+        }
+    }
+    banks.push(trg_bank(r));
+    kinds.push(Kind::Trg);
+    for _ in 0..r.below(3) {
+        banks.push(other_bank(w, r));
+        kinds.push(Kind::Other);
+    }
+    shuffle(r, &mut banks, &mut kinds);
+    Ev { run, banks, kinds }
+}
+
+fn find_kind(ev: &Ev, r: &mut Rng, f: impl Fn(&Kind) -> bool) -> Option<usize> {
+    let idx: Vec<usize> = (0..ev.kinds.len()).filter(|&i| f(&ev.kinds[i])).collect();
+    if idx.is_empty() {
+        None
+    } else {
+        Some(r.pick(&idx))
+    }
+}
+fn is_wire(k: &Kind) -> bool {
+    matches!(k, Kind::Wire { .. })
+}
+fn is_pad(k: &Kind) -> bool {
+    matches!(k, Kind::Pad { .. })
+}
+
+pub const N_PERTURB: u64 = 22;
+/// one inconsistency of the property's quantifier text; returns its label
+pub fn perturb(w: &World, r: &mut Rng, ev: &mut Ev, which: u64) -> Option<&'static str> {
+    match which {
+        0 => {
+            // renamed wire bank: other channel / other board / BV name
+            let i = find_kind(ev, r, is_wire)?;
+            if let Kind::Wire { board, chan, .. } = ev.kinds[i].clone() {
+                ev.banks[i].name = match r.below(3) {
+                    0 => wire_name(&w.a16[board].name, (chan + 1 + r.below(31) as u8) % 32),
+                    1 => wire_name(&w.a16[(board + 1 + r.below(7) as usize) % w.a16.len()].name, chan),
+                    _ => format!("B{}{:X}", w.a16[board].name, chan % 16),
+                };
+            }
+            Some("renamed-wire-bank")
+        }
+        1 => {
+            // swapped payloads of two banks
+            if ev.banks.len() < 2 {
+                return None;
+            }
+            let i = r.below(ev.banks.len() as u64) as usize;
+            let j = (i + 1 + r.below(ev.banks.len() as u64 - 1) as usize) % ev.banks.len();
+            let (a, b) = (ev.banks[i].data.clone(), ev.banks[j].data.clone());
+            ev.banks[i].data = b;
+            ev.banks[j].data = a;
+            Some("swapped-payloads")
+        }
+        2 => {
+            // duplicated bank (same bytes) at a random position
+            let i = r.below(ev.banks.len() as u64) as usize;
+            let (b, k) = (ev.banks[i].clone(), ev.kinds[i].clone());
+            let at = r.below(ev.banks.len() as u64 + 1) as usize;
+            ev.banks.insert(at, b);
+            ev.kinds.insert(at, k);
+            Some("duplicated-bank")
+        }
+        3 | 4 => {
+            // duplicated wire bank, one copy without post-delay signal: short-then-long (3) / long-then-short (4)
+            let i = find_kind(ev, r, is_wire)?;
+            if let Kind::Wire { board, chan, .. } = ev.kinds[i].clone() {
+                let long = {
+                    let s = samples(r, 300, -2000, 2000);
+                    Bank { name: wire_name(&w.a16[board].name, chan), data: adc_long(w.a16[board].mac, 128 + chan, &s, None, None) }
+                };
+                let short = if r.chance(1, 2) {
+                    short_bank(w, r, board, chan)
+                } else {
+                    let s = { let n = r.pick(&[64usize, 70, 99, 100]); samples(r, n, -2000, 2000) };
+                    Bank { name: wire_name(&w.a16[board].name, chan), data: adc_long(w.a16[board].mac, 128 + chan, &s, None, None) }
+                };
+                ev.banks.remove(i);
+                let k = ev.kinds.remove(i);
+                let a = r.below(ev.banks.len() as u64 + 1) as usize;
+                let b2 = r.range(a as u64, ev.banks.len() as u64) as usize + 1;
+                let (first, second) = if which == 3 { (short, long) } else { (long, short) };
+                ev.banks.insert(a, first);
+                ev.kinds.insert(a, k.clone());
+                ev.banks.insert(b2, second);
+                ev.kinds.insert(b2, k);
+            }
+            Some(if which == 3 { "dup-wire-short-then-long" } else { "dup-wire-long-then-short" })
+        }
+        5 => {
+            let i = find_kind(ev, r, |k| matches!(k, Kind::Trg))?;
+            ev.banks.remove(i);
+            ev.kinds.remove(i);
+            Some("missing-trg")
+        }
+        6 => {
+            let b = trg_bank(r);
+            let at = r.below(ev.banks.len() as u64 + 1) as usize;
+            ev.banks.insert(at, b);
+            ev.kinds.insert(at, Kind::Trg);
+            Some("duplicated-trg")
+        }
+        7 | 8 => {
+            // BV channel in a C bank: long packet (7), 16-byte suppressed packet (8)
+            let i = find_kind(ev, r, is_wire)?;
+            if let Kind::Wire { board, chan, .. } = ev.kinds[i].clone() {
+                let bv = if r.chance(1, 2) { chan % 16 } else { r.below(16) as u8 };
+                ev.banks[i].data = if which == 7 {
+                    let s = samples(r, 140, -2000, 2000);
+                    adc_long(w.a16[board].mac, bv, &s, None, None)
+                } else {
+                    adc_short(bv, 699, 0)
+                };
+            }
+            Some(if which == 7 { "bv-channel-long" } else { "bv-channel-suppressed" })
+        }
+        9 | 10 => {
+            // payload channel differs from the name: long (9), suppressed (10)
+            let i = find_kind(ev, r, is_wire)?;
+            if let Kind::Wire { board, chan, .. } = ev.kinds[i].clone() {
+                let other = (chan + 1 + r.below(31) as u8) % 32;
+                ev.banks[i].data = if which == 9 {
+                    let s = samples(r, 140, -2000, 2000);
+                    adc_long(w.a16[board].mac, 128 + other, &s, None, None)
+                } else {
+                    adc_short(128 + other, 699, 0)
+                };
+            }
+            Some(if which == 9 { "channel-mismatch-long" } else { "channel-mismatch-suppressed" })
+        }
+        11 => {
+            // payload MAC of another board
+            let i = find_kind(ev, r, is_wire)?;
+            if let Kind::Wire { board, chan, .. } = ev.kinds[i].clone() {
+                let other = (board + 1 + r.below(w.a16.len() as u64 - 1) as usize) % w.a16.len();
+                let s = samples(r, 140, -2000, 2000);
+                ev.banks[i].data = adc_long(w.a16[other].mac, 128 + chan, &s, None, None);
+            }
+            Some("board-mismatch")
+        }
+        12 => {
+            // unknown / near-miss bank name
+            let names = [
+                "XXXX", "", "C09", "C09a", "CXX0", "C0900", "C19A", "PC99", "PC1", "PCAA", "ATAU", "ATA", "TRBB", "MCVY",
+                "SEQ2", "c09A", "B09G", "C09W", "PC79", "atat", "C\u{e9}9", "\u{1F600}",
+            ];
+            let i = r.below(ev.banks.len() as u64) as usize;
+            ev.banks[i].name = if r.chance(3, 4) {
+                r.pick(&names).to_string()
+            } else {
+                (0..4).map(|_| (r.range(32, 126) as u8) as char).collect()
+            };
+            Some("unknown-name")
+        }
+        13 => {
+            // malformed payload: flip / truncate / extend
+            let i = r.below(ev.banks.len() as u64) as usize;
+            let d = &mut ev.banks[i].data;
+            match r.below(4) {
+                0 if !d.is_empty() => {
+                    let k = r.below(d.len() as u64) as usize;
+                    d[k] ^= 1 << r.below(8);
+                }
+                1 if !d.is_empty() => {
+                    let k = r.below(d.len() as u64) as usize;
+                    d.truncate(k);
+                }
+                2 => d.extend({ let n = r.range(1, 4) as usize; r.bytes(n) }),
+                _ => *d = { let n = r.pick(&[0usize, 15, 16, 28, 36, 80]); r.bytes(n) },
+            }
+            Some("malformed-payload")
+        }
+        14 => {
+            // PWB board that may not be installed for the run / wire event on a run without maps
+            ev.run = r.pick(&[0u32, 2723, 2724, 2940, 2941, 4417, 4418, 10417, 10418, 6999, 7000, 7025, 7026, 9276, 9277, 11083]);
+            Some("run-without-map-or-calibration")
+        }
+        15 => {
+            // two chunk groups whose payloads name the same (board, chip): header says board A, payload MAC says board B
+            let a = r.below(w.pwb.len() as u64) as usize;
+            let b = (a + 1 + r.below(w.pwb.len() as u64 - 1) as usize) % w.pwb.len();
+            let chip = r.below(4) as u8;
+            let hdr_chip = if r.chance(1, 2) { chip } else { r.below(4) as u8 };
+            let ch = r.pick(&[4u16, 5, 40, 79]);
+            let n1 = r.pick(&[300u16, 120, 50, 100]);
+            let n2 = r.pick(&[50u16, 100, 101, 300]);
+            let p1 = pwb_payload(w.pwb[b].mac, b'A' + chip, n1, &[(ch, samples(r, n1 as usize, -2048, 2047))]);
+            let p2 = pwb_payload(w.pwb[b].mac, b'A' + chip, n2, &[(ch, samples(r, n2 as usize, -2048, 2047))]);
+            // drop existing groups of these boards so that the only conflict is the injected one
+            let keep: Vec<usize> = (0..ev.kinds.len())
+                .filter(|&i| !matches!(ev.kinds[i], Kind::Pad { board, .. } if board == a || board == b))
+                .collect();
+            ev.banks = keep.iter().map(|&i| ev.banks[i].clone()).collect();
+            ev.kinds = keep.iter().map(|&i| ev.kinds[i].clone()).collect();
+            let g1 = Bank { name: format!("PC{}", w.pwb[b].name), data: chunk(w.pwb[b].dev, chip, 1, 0, &p1) };
+            let g2 = Bank { name: format!("PC{}", w.pwb[a].name), data: chunk(w.pwb[a].dev, hdr_chip, 1, 0, &p2) };
+            let (x, y) = if r.chance(1, 2) { (g1, g2) } else { (g2, g1) };
+            let at = r.below(ev.banks.len() as u64 + 1) as usize;
+            ev.banks.insert(at, x);
+            ev.kinds.insert(at, Kind::Pad { board: a, chip });
+            let at = r.below(ev.banks.len() as u64 + 1) as usize;
+            ev.banks.insert(at, y);
+            ev.kinds.insert(at, Kind::Pad { board: b, chip });
+            Some("two-groups-same-payload-board-chip")
+        }
+        16 => {
+            // pad bank renamed to another PWB board
+            let i = find_kind(ev, r, is_pad)?;
+            let o = r.below(w.pwb.len() as u64) as usize;
+            ev.banks[i].name = format!("PC{}", w.pwb[o].name);
+            Some("renamed-pad-bank")
+        }
+        17 => {
+            // a chunk of a multi-chunk packet removed or duplicated
+            let i = find_kind(ev, r, is_pad)?;
+            if r.chance(1, 2) {
+                ev.banks.remove(i);
+                ev.kinds.remove(i);
+                Some("missing-chunk")
+            } else {
+                let (b, k) = (ev.banks[i].clone(), ev.kinds[i].clone());
+                let at = r.below(ev.banks.len() as u64 + 1) as usize;
+                ev.banks.insert(at, b);
+                ev.kinds.insert(at, k);
+                Some("duplicated-chunk")
+            }
+        }
+        18 => {
+            // same (board, chip) sent twice as two complete single-chunk packets in one group
+            let i = find_kind(ev, r, is_pad)?;
+            if let Kind::Pad { board, chip } = ev.kinds[i].clone() {
+                for bk in pad_banks(w, r, board, chip, &[5, 6], 110, 1) {
+                    let at = r.below(ev.banks.len() as u64 + 1) as usize;
+                    ev.banks.insert(at, bk);
+                    ev.kinds.insert(at, Kind::Pad { board, chip });
+                }
+            }
+            Some("second-packet-same-group")
+        }
+        19 => {
+            // payload chip letter differs from the chunk header's chip: placement follows the payload
+            let b = r.below(w.pwb.len() as u64) as usize;
+            let (c1, c2) = (r.below(4) as u8, r.below(4) as u8);
+            let n = r.pick(&[101u16, 116, 130]);
+            let p = pwb_payload(w.pwb[b].mac, b'A' + c2, n, &[(7, samples(r, n as usize, -2048, 2047)), (30, samples(r, n as usize, -2048, 2047))]);
+            let keep: Vec<usize> =
+                (0..ev.kinds.len()).filter(|&i| !matches!(ev.kinds[i], Kind::Pad { board, .. } if board == b)).collect();
+            ev.banks = keep.iter().map(|&i| ev.banks[i].clone()).collect();
+            ev.kinds = keep.iter().map(|&i| ev.kinds[i].clone()).collect();
+            let at = r.below(ev.banks.len() as u64 + 1) as usize;
+            ev.banks.insert(at, Bank { name: format!("PC{}", w.pwb[b].name), data: chunk(w.pwb[b].dev, c1, 1, 0, &p) });
+            ev.kinds.insert(at, Kind::Pad { board: b, chip: c1 });
+            Some("payload-chip-differs-from-header")
+        }
+        20 => {
+            // wire bank whose waveform ends exactly around the delay (empty / one-sample signal)
+            let i = find_kind(ev, r, is_wire)?;
+            if let Kind::Wire { board, chan, .. } = ev.kinds[i].clone() {
+                let n = r.pick(&[99usize, 100, 101, 128, 129, 130]);
+                let s = samples(r, n, i16::MIN, i16::MAX);
+                ev.banks[i].data = adc_long(w.a16[board].mac, 128 + chan, &s, None, None);
+                ev.kinds[i] = Kind::Wire { board, chan, short: false };
+            }
+            Some("wire-length-at-delay")
+        }
+        _ => {
+            // trg bank with a payload of another kind / wire bank carrying a TRG payload
+            let i = find_kind(ev, r, |k| matches!(k, Kind::Trg))?;
+            let j = find_kind(ev, r, |k| !matches!(k, Kind::Trg))?;
+            ev.banks[i].data = ev.banks[j].data.clone();
+            Some("trg-with-foreign-payload")
+        }
+    }
+}
+
+pub fn emit(s: &mut Sink, tag: &str, label: &str, run: u32, banks: &[Bank]) {
+    let line = case_line(tag, run, banks);
+    let obs = observe(run, banks);
+    let nt = obs != "err" || banks.len() > 1;
+    s.put(&line, &obs, label, nt);
+}
+
+/// all 32 channels of one Alpha16 board in one event
+pub fn board_sweep_wires(w: &World, r: &mut Rng, _run: u32, board: usize) -> Vec<Bank> {
+    let mut banks: Vec<Bank> = (0..32u8)
+        .map(|c| {
+            let n = r.pick(&[130usize, 131, 135]);
+            let s = samples(r, n, -3000, 3000);
+            Bank { name: wire_name(&w.a16[board].name, c), data: adc_long(w.a16[board].mac, 128 + c, &s, None, None) }
+        })
+        .collect();
+    banks.push(trg_bank(r));
+    banks
+}
+/// all 79 readout channels of one (board, chip)
+pub fn board_sweep_pads(w: &World, r: &mut Rng, board: usize, chip: u8, nsamp: u16) -> Vec<Bank> {
+    let chans: Vec<u16> = (1..=79).collect();
+    let mut banks = { let k = r.range(1, 4) as usize; pad_banks(w, r, board, chip, &chans, nsamp, k) };
+    banks.push(trg_bank(r));
+    banks
+}
+
+/// a consistent event that the implementation accepts (so that one injected inconsistency is the
+/// only thing that decides the outcome)
+pub fn clean_base(w: &World, r: &mut Rng, run: Option<u32>) -> Ev {
+    loop {
+        let run = run.unwrap_or_else(|| r.pick(&[u32::MAX, u32::MAX, 11192, 11186, 11084, 10418, 9277, 12000]));
+        let big = r.chance(1, 8);
+        let ev = base_event(w, r, run, big);
+        if observe(ev.run, &ev.banks).starts_with("ok") {
+            return ev;
+        }
+    }
+}
+/// insert `extra` into the bank list of `base` at random positions, keeping their relative order
+pub fn inject(r: &mut Rng, base: &Ev, extra: &[Bank]) -> Vec<Bank> {
+    let mut pos: Vec<usize> = (0..extra.len()).map(|_| r.below(base.banks.len() as u64 + 1) as usize).collect();
+    pos.sort();
+    let mut out = Vec::new();
+    let mut k = 0;
+    for i in 0..=base.banks.len() {
+        while k < extra.len() && pos[k] == i {
+            out.push(extra[k].clone());
+            k += 1;
+        }
+        if i < base.banks.len() {
+            out.push(base.banks[i].clone());
+        }
+    }
+    out
+}
+fn pwb_installed(w: &World, run: u32, board: usize) -> bool {
+    let b = padwing::BoardId::try_from(&w.pwb[board].name[..]).unwrap();
+    alpha_g_detector::padwing::map::TpcPwbPosition::try_new(run, b).is_ok()
+}
+/// samples: quiet before the delay, the listed values after it
+fn wave(n_pre: usize, level: i16, post: &[i16]) -> Vec<i16> {
+    let mut v = vec![level; n_pre];
+    v.extend_from_slice(post);
+    v
+}
+
+/// For every check of try_from_banks: cases on an otherwise accepted event in which ONLY that check
+/// decides, with both relative orders of the banks involved.
+pub fn decisive(w: &World, r: &mut Rng, s: &mut Sink, reps: usize) {
+    const EXT: [i16; 10] = [i16::MIN, i16::MAX, i16::MIN + 1, i16::MAX - 1, 0, -1, 1, 3000, -3000, 1725];
+    for rep in 0..reps {
+        let run = [u32::MAX, 11192, 9277, u32::MAX][rep % 4];
+        let (wd, pd) = if run == u32::MAX { (100usize, 100u16) } else { (129usize, 115u16) };
+        let base = clean_base(w, r, Some(run));
+        let mut q = Rng::new(r.next());
+        // a wire name and two PWB boards the base does not use
+        let (b, c) = loop {
+            let b = r.below(w.a16.len() as u64) as usize;
+            let c = r.below(32) as u8;
+            if !base.kinds.iter().any(|k| matches!(k, Kind::Wire { board, chan, .. } if *board == b && *chan == c)) {
+                break (b, c);
+            }
+        };
+        let free_pwb = |r: &mut Rng, installed: bool, not: usize| loop {
+            let pb = r.below(w.pwb.len() as u64) as usize;
+            if pb != not
+                && pwb_installed(w, run, pb) == installed
+                && !base.kinds.iter().any(|k| matches!(k, Kind::Pad { board, .. } if *board == pb))
+            {
+                break pb;
+            }
+        };
+        let pb = free_pwb(r, true, usize::MAX);
+        let pb2 = free_pwb(r, true, pb);
+        let chip = r.below(4) as u8;
+        let name = wire_name(&w.a16[b].name, c);
+        let mac = w.a16[b].mac;
+        let ob = (b + 1 + r.below(w.a16.len() as u64 - 1) as usize) % w.a16.len();
+        let oc = (c + 1 + r.below(31) as u8) % 32;
+        let long = |r: &mut Rng, n: usize| -> Vec<u8> { adc_long(mac, 128 + c, &samples(r, n, -3000, 3000), None, None) };
+        let put = |r: &mut Rng, s: &mut Sink, label: &str, extra: &[Bank]| {
+            let banks = inject(r, &base, extra);
+            emit(s, "evt10", label, run, &banks);
+        };
+        let wb = |data: Vec<u8>| Bank { name: name.clone(), data };
+        // reference and single-bank decisions
+        let l300 = long(&mut q, 300);
+        put(r, s, "only-reference-wire-accepted", &[wb(l300.clone())]);
+        for bad in ["C09a", "XXXX", "C19A", "C09W"] {
+            put(r, s, "only-unknown-name", &[Bank { name: bad.to_string(), data: l300.clone() }]);
+        }
+        {
+            let mut d = l300.clone();
+            let k = d.len() - 1;
+            d[k] ^= 1;
+            put(r, s, "only-malformed-wire-payload", &[wb(d)]);
+            let mut d = l300.clone();
+            d.pop();
+            put(r, s, "only-malformed-wire-payload", &[wb(d)]);
+        }
+        let bvs = adc_long(mac, c % 16, &samples(&mut q, 300, -3000, 3000), None, None);
+        put(r, s, "only-bv-channel-long", &[wb(bvs)]);
+        put(r, s, "only-bv-channel-suppressed", &[wb(adc_short(c % 16, 699, 5))]);
+        put(r, s, "only-channel-mismatch-long", &[wb(adc_long(mac, 128 + oc, &samples(&mut q, 300, -3000, 3000), None, None))]);
+        put(r, s, "only-channel-mismatch-suppressed", &[wb(adc_short(128 + oc, 699, 5))]);
+        put(r, s, "only-board-mismatch-long", &[wb(adc_long(w.a16[ob].mac, 128 + c, &samples(&mut q, 300, -3000, 3000), None, None))]);
+        put(r, s, "only-suppressed-accepted", &[wb(adc_short(128 + c, 699, 5))]);
+        // duplicated name: every combination of {suppressed, long but empty after the delay, long with signal}
+        let variants = |r: &mut Rng| -> Vec<(&'static str, Vec<u8>)> {
+            vec![
+                ("supp", adc_short(128 + c, 699, 5)),
+                ("empty", { let n = r.pick(&[64usize, 65, wd - 1, wd]); long(r, n) }),
+                ("signal", { let n = r.pick(&[wd + 1, wd + 2, 300]); long(r, n) }),
+            ]
+        };
+        let (v1, v2) = (variants(&mut q), variants(&mut q));
+        for (n1, d1) in &v1 {
+            for (n2, d2) in &v2 {
+                let label = format!("only-duplicate-wire-{}-then-{}", n1, n2);
+                put(r, s, &label, &[wb(d1.clone()), wb(d2.clone())]);
+            }
+        }
+        // waveform length around the delay; sample extremes after the delay
+        for n in [64, wd - 1, wd, wd + 1, wd + 2] {
+            let lv = r.pick(&[-3000i16, 0, 3000, i16::MIN, i16::MAX]);
+            let post: Vec<i16> = (0..n.saturating_sub(wd)).map(|_| r.pick(&EXT)).collect();
+            let pre = n.min(wd);
+            put(r, s, "only-wire-length-at-delay", &[wb(adc_long(mac, 128 + c, &wave(pre, lv, &post), None, None))]);
+        }
+        for lv in [i16::MIN, -1, 0, i16::MAX] {
+            let d = adc_long(mac, 128 + c, &wave(wd, lv, &EXT), None, None);
+            put(r, s, "only-wire-sample-extremes", &[wb(d)]);
+        }
+        // pads
+        let pname = |i: usize| format!("PC{}", w.pwb[i].name);
+        let one = |i: usize, hdr_chip: u8, pay_board: usize, pay_chip: u8, n: u16, chans: &[(u16, Vec<i16>)]| -> Bank {
+            Bank { name: pname(i), data: chunk(w.pwb[i].dev, hdr_chip, 1, 0, &pwb_payload(w.pwb[pay_board].mac, b'A' + pay_chip, n, chans)) }
+        };
+        let ws = |r: &mut Rng, n: u16| samples(r, n as usize, -2048, 2047);
+        let n_ok = pd + 3;
+        put(r, s, "only-reference-pad-accepted", &[one(pb, chip, pb, chip, n_ok, &[(4, ws(&mut q, n_ok)), (79, ws(&mut q, n_ok))])]);
+        put(r, s, "only-fpn-reset-channels-sent", &[one(pb, chip, pb, chip, n_ok,
+            &[(1, ws(&mut q, n_ok)), (2, ws(&mut q, n_ok)), (3, ws(&mut q, n_ok)), (16, ws(&mut q, n_ok)), (29, ws(&mut q, n_ok)), (54, ws(&mut q, n_ok)), (67, ws(&mut q, n_ok))])]);
+        put(r, s, "only-fpn-reset-beside-pad-channels", &[one(pb, chip, pb, chip, n_ok,
+            &[(1, ws(&mut q, n_ok)), (4, ws(&mut q, n_ok)), (16, ws(&mut q, n_ok)), (17, ws(&mut q, n_ok)), (67, ws(&mut q, n_ok)), (68, ws(&mut q, n_ok)), (79, ws(&mut q, n_ok))])]);
+        for n in [0u16, 1, pd - 1, pd, pd + 1, pd + 2] {
+            put(r, s, "only-pad-length-at-delay", &[one(pb, chip, pb, chip, n, &[(5, ws(&mut q, n)), (30, ws(&mut q, n))])]);
+        }
+        {
+            let n = pd + EXT.len() as u16;
+            for lv in [i16::MIN, 0, i16::MAX] {
+                put(r, s, "only-pad-sample-extremes", &[one(pb, chip, pb, chip, n, &[(6, wave(pd as usize, lv, &EXT))])]);
+            }
+        }
+        // two chunk groups colliding on one pad: every combination of empty / non-empty after the delay, both orders
+        for n1 in [pd - 1, pd + 5] {
+            for n2 in [pd - 1, pd + 5] {
+                for hdr_chip in [chip, (chip + 1) % 4] {
+                    let g1 = one(pb, chip, pb, chip, n1, &[(9, ws(&mut q, n1))]);
+                    let g2 = one(pb2, hdr_chip, pb, chip, n2, &[(9, ws(&mut q, n2))]);
+                    put(r, s, "only-two-groups-collide-on-a-pad", &[g1.clone(), g2.clone()]);
+                    put(r, s, "only-two-groups-collide-on-a-pad", &[g2, g1]);
+                }
+            }
+        }
+        {
+            // same two groups on different channels: accepted, placement by the payload's board and chip
+            let g1 = one(pb, chip, pb, chip, n_ok, &[(9, ws(&mut q, n_ok))]);
+            let g2 = one(pb2, chip, pb, chip, n_ok, &[(10, ws(&mut q, n_ok))]);
+            put(r, s, "only-two-groups-same-payload-board-no-collision", &[g1.clone(), g2.clone()]);
+            put(r, s, "only-two-groups-same-payload-board-no-collision", &[g2, g1]);
+            let g3 = one(pb, chip, pb, (chip + 1) % 4, n_ok, &[(9, ws(&mut q, n_ok))]);
+            put(r, s, "only-payload-chip-differs-from-header", &[g3]);
+        }
+        {
+            let g = one(pb, chip, pb, chip, n_ok, &[(4, ws(&mut q, n_ok))]);
+            put(r, s, "only-pad-bank-renamed", &[Bank { name: pname(pb2), data: g.data.clone() }]);
+            let mut d = g.data.clone();
+            let k = d.len() - 6;
+            d[k] ^= 4;
+            put(r, s, "only-malformed-chunk", &[Bank { name: pname(pb), data: d }]);
+            // two-chunk packet: complete in both orders, each chunk alone, a chunk twice
+            let payload = pwb_payload(w.pwb[pb].mac, b'A' + chip, n_ok, &[(4, ws(&mut q, n_ok)), (5, ws(&mut q, n_ok))]);
+            let parts = split_chunks(w.pwb[pb].dev, chip, &payload, 2);
+            let cb = |k: usize| Bank { name: pname(pb), data: parts[k].clone() };
+            put(r, s, "only-two-chunks-in-order", &[cb(0), cb(1)]);
+            put(r, s, "only-two-chunks-reversed", &[cb(1), cb(0)]);
+            put(r, s, "only-missing-chunk", &[cb(0)]);
+            put(r, s, "only-missing-chunk", &[cb(1)]);
+            put(r, s, "only-duplicated-chunk", &[cb(0), cb(1), cb(1)]);
+            put(r, s, "only-duplicated-chunk", &[cb(0), cb(0), cb(1)]);
+        }
+        if let Some(nb) = (0..w.pwb.len()).find(|&i| !pwb_installed(w, run, i)) {
+            let g = one(nb, chip, nb, chip, n_ok, &[(4, ws(&mut q, n_ok))]);
+            put(r, s, "only-pad-board-not-installed", &[g]);
+            // only Fpn/Reset channels of a board that is not installed: nothing to map, accepted
+            let g = one(nb, chip, nb, chip, n_ok, &[(1, ws(&mut q, n_ok)), (16, ws(&mut q, n_ok))]);
+            put(r, s, "only-not-installed-board-without-pad-channels", &[g]);
+        }
+        // TRG
+        {
+            let keep: Vec<usize> = (0..base.banks.len()).filter(|&i| !matches!(base.kinds[i], Kind::Trg)).collect();
+            let no_trg = Ev { run, banks: keep.iter().map(|&i| base.banks[i].clone()).collect(), kinds: keep.iter().map(|&i| base.kinds[i].clone()).collect() };
+            emit(s, "evt10", "only-missing-trg", run, &no_trg.banks);
+            let t = trg_bank(r);
+            emit(s, "evt10", "only-trg-restored", run, &inject(r, &no_trg, &[t.clone()]));
+            let mut bad = t.clone();
+            bad.data[79] ^= 0x10;
+            emit(s, "evt10", "only-malformed-trg", run, &inject(r, &no_trg, &[bad]));
+            let mut bad = t.clone();
+            bad.data.pop();
+            emit(s, "evt10", "only-malformed-trg", run, &inject(r, &no_trg, &[bad]));
+            put(r, s, "only-duplicated-trg", &[t]);
+        }
+        put(r, s, "only-ignored-banks", &[
+            Bank { name: format!("B{}{:X}", w.a16[b].name, c % 16), data: q.bytes(7) },
+            Bank { name: "TRBA".into(), data: vec![] },
+            Bank { name: "MCVX".into(), data: q.bytes(3) },
+        ]);
+    }
+}
+
+pub fn run(tier: &str, seed: u64, s: &mut Sink) {
+    let w = world();
+    let mut r = Rng::new(seed ^ 0xC10);
+    let thorough = tier == "thorough";
+    // 1. sweeps: every (board, channel) pair and (board, chip, pad) triple
+    let sweep_runs: Vec<u32> = if thorough {
+        RUNS_MAIN.iter().chain(RUNS_EDGE.iter()).copied().collect()
+    } else {
+        vec![u32::MAX, 9277, 11192, 10417, 7026]
+    };
+    for &run in &sweep_runs {
+        for b in 0..w.a16.len() {
+            let banks = board_sweep_wires(&w, &mut r, run, b);
+            emit(s, "evt10", "sweep-wires-32-channels-of-a-board", run, &banks);
+        }
+    }
+    let pad_runs: Vec<u32> = if thorough { vec![u32::MAX, 9277, 10417, 10418, 11084, 11192, 4418, 9276] } else { vec![u32::MAX, 11192] };
+    for &run in &pad_runs {
+        for b in 0..w.pwb.len() {
+            for chip in 0..4u8 {
+                if !thorough && !r.chance(1, 12) {
+                    continue;
+                }
+                let nsamp = if run == u32::MAX { 101 } else { 116 };
+                let banks = board_sweep_pads(&w, &mut r, b, chip, nsamp);
+                emit(s, "evt10", "sweep-pads-79-channels-of-a-chip", run, &banks);
+            }
+        }
+    }
+    // 1b. per check: cases in which only that check decides
+    decisive(&w, &mut r, s, if thorough { 60 } else { 8 });
+    // 2. consistent events
+    let n_valid = if thorough { 6000 } else { 900 };
+    for i in 0..n_valid {
+        let run = pick_run(&mut r);
+        let ev = base_event(&w, &mut r, run, i % 10 == 0);
+        emit(s, "evt10", "consistent-event", ev.run, &ev.banks);
+    }
+    // 3. one inconsistency per case, every class equally often
+    let n_pert = if thorough { 600 } else { 90 };
+    for which in 0..N_PERTURB {
+        let mut done = 0;
+        let mut tries = 0;
+        while done < n_pert && tries < 20 * n_pert {
+            tries += 1;
+            // mostly on an accepted event, so that the injected inconsistency alone decides
+            let mut ev = if tries % 4 == 3 {
+                let run = pick_run(&mut r);
+                base_event(&w, &mut r, run, tries % 7 == 0)
+            } else {
+                clean_base(&w, &mut r, None)
+            };
+            if let Some(label) = perturb(&w, &mut r, &mut ev, which) {
+                emit(s, "evt10", label, ev.run, &ev.banks);
+                done += 1;
+            }
+        }
+    }
+    // 4. random names and bytes
+    let n_rand = if thorough { 3000 } else { 300 };
+    for _ in 0..n_rand {
+        let k = r.below(4) as usize;
+        let banks: Vec<Bank> = (0..k)
+            .map(|_| {
+                let name = match r.below(5) {
+                    0 => wire_name(&w.a16[r.below(8) as usize].name, r.below(32) as u8),
+                    1 => format!("PC{}", w.pwb[r.below(w.pwb.len() as u64) as usize].name),
+                    2 => "ATAT".to_string(),
+                    3 => (0..4).map(|_| (r.range(48, 90) as u8) as char).collect(),
+                    _ => other_bank(&w, &mut r).name,
+                };
+                let n = r.pick(&[0usize, 1, 16, 28, 36, 80, 164]);
+                Bank { name, data: r.bytes(n) }
+            })
+            .collect();
+        emit(s, "evt10", "random-names-and-bytes", pick_run(&mut r), &banks);
+    }
 }
